@@ -5,6 +5,7 @@ package redisemu
 import (
 	"strconv"
 	"sync/atomic"
+	"unsafe"
 )
 
 // VerifHook is the callback type installed by verification tooling. It is
@@ -33,4 +34,9 @@ func verifPointN(point string, id int64, n1, n2 int) {
 	if h := verifHook.Load(); h != nil {
 		(*h)(point, id, strconv.Itoa(n1)+"/"+strconv.Itoa(n2))
 	}
+}
+
+// verifDsID identifies a data store in hook details (its address; never dereferenced by the tooling).
+func verifDsID(ds *dataStore) int {
+	return int(uintptr(unsafe.Pointer(ds)))
 }
